@@ -57,6 +57,14 @@ func callbackBody(v ssa.Value) (body *ssa.Function, arg int, recv ssa.Value, lit
 		return f, 0, nil, f.Parent() != nil
 	case *ssa.Function:
 		return x, 0, nil, x.Parent() != nil
+	case *ssa.Call:
+		// a constructor of the callback: `ab.checkpointVertex(&fm)` returning the function literal
+		if cal := x.Call.StaticCallee(); cal != nil && isRepoFunc(cal) && len(cal.Blocks) > 0 {
+			rets := returnsOf(cal)
+			if len(rets) == 1 && len(rets[0].Results) == 1 {
+				return callbackBody(rets[0].Results[0])
+			}
+		}
 	}
 	return nil, 0, nil, false
 }
